@@ -5,7 +5,6 @@ import (
 	"os"
 	"strings"
 	"testing"
-	"unicode/utf8"
 
 	"pgregory.net/rapid"
 	pb "google.golang.org/protobuf/proto"
@@ -18,154 +17,14 @@ import (
 )
 
 const (
-	kfSeqNoPartitionKey = "C13:sequence-put-without-partition-key"
-	kfSeqZeroDelta      = "C13:sequence-put-first-delta-zero"
-	kfSeqFewerDeltas    = "C13:sequence-put-fewer-deltas-than-existing-suffixes"
-	kfSeqBadSuffix      = "C13:sequence-put-over-key-with-non-numeric-suffix"
+	kfSeqNoPartitionKey = gen.KfSeqNoPartitionKey
+	kfSeqZeroDelta      = gen.KfSeqZeroDelta
+	kfSeqFewerDeltas    = gen.KfSeqFewerDeltas
+	kfSeqBadSuffix      = gen.KfSeqBadSuffix
 )
 
 func p64(v int64) *int64   { return &v }
 func pstr(v string) *string { return &v }
-
-// hostileKey: keys a client can put on the wire (valid UTF-8, outside the reserved prefix).
-func hostileKey(t *rapid.T, pool []string) string {
-	k := hostileKey0(t, pool)
-	if strings.HasPrefix(k, "sq") {
-		return "s" + k
-	}
-	return k
-}
-
-func hostileKey0(t *rapid.T, pool []string) string {
-	switch rapid.IntRange(0, 9).Draw(t, "hk") {
-	case 0:
-		return ""
-	case 1:
-		return strings.Repeat(gen.Key().Draw(t, "rep"), rapid.IntRange(1, 300).Draw(t, "repN"))
-	case 2:
-		return gen.Key().Draw(t, "k") + "-" + rapid.SampledFrom([]string{"abc", "00000000000000000001", "0000000000000000000x", "1", "-", "99999999999999999999"}).Draw(t, "suffix")
-	case 3:
-		s := rapid.StringN(0, 8, 16).Draw(t, "uni")
-		if !utf8.ValidString(s) || model.IsInternal(s) {
-			return "u"
-		}
-		return s
-	default:
-		return pool[rapid.IntRange(0, len(pool)-1).Draw(t, "pk")]
-	}
-}
-
-func hostileRequest(t *rapid.T, pool []string, sessions []int64) (*proto.WriteRequest, bool) {
-	req := &proto.WriteRequest{}
-	unusual := false
-	if rapid.Bool().Draw(t, "shard") {
-		req.Shard = p64(int64(rapid.IntRange(-1, 3).Draw(t, "shardId")))
-	}
-	nPuts := rapid.IntRange(0, 6).Draw(t, "nPuts")
-	if rapid.IntRange(0, 9).Draw(t, "many") == 0 {
-		nPuts = rapid.IntRange(20, 50).Draw(t, "nPutsMany")
-	}
-	for i := 0; i < nPuts; i++ {
-		p := &proto.PutRequest{Key: hostileKey(t, pool)}
-		if rapid.Bool().Draw(t, "val") {
-			p.Value = []byte(newTag())
-		}
-		switch rapid.IntRange(0, 4).Draw(t, "ev") {
-		case 0:
-			p.ExpectedVersionId = p64(int64(rapid.IntRange(-3, 30).Draw(t, "evv")))
-		case 1:
-			p.ExpectedVersionId = p64(rapid.Int64().Draw(t, "evAny"))
-		}
-		if rapid.IntRange(0, 2).Draw(t, "seq") == 0 {
-			unusual = true
-			nd := rapid.IntRange(1, 4).Draw(t, "nd")
-			for j := 0; j < nd; j++ {
-				p.SequenceKeyDelta = append(p.SequenceKeyDelta, rapid.SampledFrom([]uint64{0, 1, 2, 5, 1 << 62, 1<<64 - 1}).Draw(t, "delta"))
-			}
-			if rapid.Bool().Draw(t, "pk") {
-				p.PartitionKey = pstr(hostileKey(t, pool))
-			}
-			// exclusions by construction for listed known findings (counted)
-			if evid.Known(kfSeqNoPartitionKey) && p.PartitionKey == nil {
-				evid.Excluded("C13", kfSeqNoPartitionKey)
-				p.PartitionKey = pstr("pk")
-			}
-			if evid.Known(kfSeqZeroDelta) && p.SequenceKeyDelta[0] == 0 {
-				evid.Excluded("C13", kfSeqZeroDelta)
-				p.SequenceKeyDelta[0] = 1
-			}
-			if evid.Known(kfSeqFewerDeltas) || evid.Known(kfSeqBadSuffix) {
-				// the two state-dependent classes are avoided by giving every sequence put a prefix that no
-				// other key shares, with a fixed number of deltas per prefix
-				evid.Excluded("C13", kfSeqFewerDeltas+"|"+kfSeqBadSuffix)
-				p.Key = fmt.Sprintf("sq%d", nd)
-				if p.PartitionKey == nil && (p.ExpectedVersionId == nil) && !evid.Known(kfSeqNoPartitionKey) {
-					// keep the (unlisted) missing-partition-key shape reachable
-				}
-			}
-		} else if rapid.IntRange(0, 3).Draw(t, "pkPlain") == 0 {
-			p.PartitionKey = pstr(hostileKey(t, pool))
-		}
-		if rapid.IntRange(0, 2).Draw(t, "sess") == 0 {
-			switch rapid.IntRange(0, 2).Draw(t, "sessKind") {
-			case 0:
-				p.SessionId = p64(rapid.Int64().Draw(t, "sidAny"))
-				unusual = true
-			default:
-				if len(sessions) > 0 {
-					p.SessionId = p64(sessions[rapid.IntRange(0, len(sessions)-1).Draw(t, "sidx")])
-				} else {
-					p.SessionId = p64(77)
-				}
-			}
-		}
-		if rapid.IntRange(0, 2).Draw(t, "idx") == 0 {
-			n := rapid.IntRange(1, 3).Draw(t, "nIdx")
-			for j := 0; j < n; j++ {
-				name := rapid.SampledFrom([]string{"idx", "", "a/b", "x\x01y", "idx0", "/", strings.Repeat("n", 200)}).Draw(t, "idxName")
-				sk := rapid.SampledFrom([]string{"", "k", "a/b", "s\x01p", "\x01", "//", gen.Key().Draw(t, "sk")}).Draw(t, "idxKey")
-				if name != "idx" && name != "idx0" || strings.ContainsAny(sk, "\x01") || sk == "" {
-					unusual = true
-				}
-				p.SecondaryIndexes = append(p.SecondaryIndexes, &proto.SecondaryIndex{IndexName: name, SecondaryKey: sk})
-			}
-		}
-		if rapid.IntRange(0, 5).Draw(t, "ident") == 0 {
-			p.ClientIdentity = pstr(rapid.SampledFrom([]string{"", "c1", strings.Repeat("i", 100)}).Draw(t, "identity"))
-		}
-		req.Puts = append(req.Puts, p)
-	}
-	nDel := rapid.IntRange(0, 3).Draw(t, "nDel")
-	for i := 0; i < nDel; i++ {
-		d := &proto.DeleteRequest{Key: hostileKey(t, pool)}
-		if rapid.IntRange(0, 2).Draw(t, "dev") == 0 {
-			d.ExpectedVersionId = p64(int64(rapid.IntRange(-3, 30).Draw(t, "devv")))
-		}
-		req.Deletes = append(req.Deletes, d)
-	}
-	nR := rapid.IntRange(0, 2).Draw(t, "nRange")
-	for i := 0; i < nR; i++ {
-		// any bounds, including empty / inverted / equal; never inside or across the reserved prefix
-		a, b := hostileKey(t, pool), hostileKey(t, pool)
-		switch rapid.IntRange(0, 4).Draw(t, "rk") {
-		case 0:
-			b = a
-			unusual = true
-		case 1:
-			if model.CompareKeys(a, b) < 0 {
-				a, b = b, a
-				unusual = true
-			}
-		case 2:
-			b = ""
-			unusual = true
-		}
-		a = strings.ReplaceAll(a, "/", ".")
-		b = strings.ReplaceAll(b, "/", ".")
-		req.DeleteRanges = append(req.DeleteRanges, &proto.DeleteRangeRequest{StartInclusive: a, EndExclusive: b})
-	}
-	return req, unusual
-}
 
 // comparable dump: everything decoded where serialization is not deterministic (notification maps).
 func comparableDump(d []rawKV) []string {
@@ -226,7 +85,7 @@ func runC13(t *rapid.T) {
 			req = &proto.WriteRequest{Puts: []*proto.PutRequest{{Key: fmt.Sprintf("__oxia/session/%016x", off), Value: []byte("m")}}}
 		default:
 			var u bool
-			req, u = hostileRequest(t, pool, sessions)
+			req, u = gen.HostileRequest(t, pool, sessions, newTag)
 			unusualSeen = unusualSeen || u
 		}
 		if evid.Known(kfSeqFewerDeltas) || evid.Known(kfSeqBadSuffix) {
